@@ -86,6 +86,40 @@ func propC04(run *Run, n int) {
 			} else {
 				a, b = VArr(VArr(m)), VArr(VNum(x))
 			}
+		case 5: // SetKeys: two members that share an identity and differ elsewhere (Equals compares whole members)
+			a, b = cfg.Pair(r)
+			if len(cfg.SetKeys) > 0 {
+				arr := cfg.Arr(r, 0)
+				objs := []int{}
+				for j, e := range arr.A {
+					if e.K == KObj {
+						objs = append(objs, j)
+					}
+				}
+				if len(objs) > 0 {
+					j := objs[r.Intn(len(objs))]
+					tw := arr.A[j].Clone()
+					tw.O["x"] = VNum(7)
+					if arr.A[j].O["x"] != nil && arr.A[j].O["x"].Wire() == tw.O["x"].Wire() {
+						tw.O["x"] = VNum(8)
+					}
+					arr.A = append(arr.A[:j+1], append([]*Val{tw}, arr.A[j+1:]...)...)
+					a = arr
+					b = arr.Clone()
+					switch r.Intn(3) {
+					case 0:
+						b.A = append(b.A[:j], b.A[j+1:]...) // only the twin is left
+					case 1:
+						b.A = append(b.A[:j+1], b.A[j+2:]...) // only the original is left
+					default:
+						b.A[j], b.A[j+1] = b.A[j+1], b.A[j] // the same set, permuted
+					}
+					if r.Chance(1, 3) {
+						a, b = VObj("items", a), VObj("items", b)
+					}
+					run.Count("setkeys:shared-identity")
+				}
+			}
 		default:
 			a, b = cfg.Pair(r)
 		}
